@@ -102,10 +102,10 @@ def check_value_obj(acc, T, x, v, bits, masks, names):
         got = getattr(x, n)
         if not isinstance(got, int) or got != (v & m) >> sh:
             acc.violation({"clause": "accessor", "type": tn, "field": n}, case, f"{tn}({v:#x}).{n} = {got!r}, expected {(v & m) >> sh:#x}")
-    from tpmstream.io.pretty.unmarshal import pretty_attrs
-
     ev = ns.MarshalEvent(ns.Path(ns.PathNode("")) / ns.PathNode("attr"), T, x)
-    rows = [ANSI.sub("", r) for r in pretty_attrs(ev)]
+    from ..impl import bit_rows
+
+    rows = [ANSI.sub("", r) for r in bit_rows(ev)]
     if len(rows) != len(names):
         acc.violation({"clause": "row-count", "type": tn}, case, f"{len(rows)} bit rows for {len(names)} fields")
     over = ["."] * bits
